@@ -92,18 +92,37 @@ fn behavior_subject_reentrancy() {
     || {},
   );
 }
+/// Facade-only variant (independent of the crate): read guard held, then write on the same thread.
+fn raw_reentrancy() {
+  let l = fsync::RwLock::new(0);
+  let r = l.read().unwrap();
+  *l.write().unwrap() += *r;
+}
+fn catch_on_thread(f: fn()) -> Result<Option<String>, String> {
+  let r = std::thread::spawn(move || std::panic::catch_unwind(f)).join().map_err(|_| "thread died".to_string())?;
+  Ok(r.err().map(|p| p.downcast_ref::<String>().cloned().or_else(|| p.downcast_ref::<&str>().map(|s| s.to_string())).unwrap_or_default()))
+}
 fn t2_passive_self_deadlock() -> TestResult {
-  let r = std::thread::spawn(|| std::panic::catch_unwind(behavior_subject_reentrancy)).join().map_err(|_| "thread died".to_string())?;
-  let msg = match r {
-    Ok(()) => return Err("no panic: re-entrant BehaviorSubject::next went through".into()),
-    Err(p) => p.downcast_ref::<String>().cloned().or_else(|| p.downcast_ref::<&str>().map(|s| s.to_string())).unwrap_or_default(),
-  };
-  check!(msg.starts_with("VERIF_SELF_DEADLOCK"), "unexpected panic message: {}", msg);
-  check!(msg.contains("behavior_subject.rs") && msg.contains("read mode") && msg.contains("write mode"), "message lacks sites/modes: {}", msg);
+  let msg = catch_on_thread(raw_reentrancy)?.ok_or("read-then-write on one thread did not panic")?;
+  check!(msg.starts_with("VERIF_SELF_DEADLOCK") && msg.contains("main.rs") && msg.contains("read mode") && msg.contains("write mode"), "raw: unexpected message: {}", msg);
+  let m = fsync::Mutex::new(0);
+  let _g = m.lock().unwrap();
+  // (same thread would hang on std::sync::Mutex)
+  let again = std::panic::catch_unwind(std::panic::AssertUnwindSafe(|| drop(m.lock())));
+  check!(again.is_err(), "Mutex double lock not detected");
   // recursive read of the same lock must stay allowed
   let l = fsync::RwLock::new(1);
   let (a, b) = (l.read().unwrap(), l.read().unwrap());
   check!(*a + *b == 2, "recursive read broken");
+  // the crate scenario of the spec: BehaviorSubject::next from inside its own subscriber (hangs on plain std)
+  let msg = match catch_on_thread(behavior_subject_reentrancy)? {
+    Some(m) => m,
+    // only possible if the crate under test no longer holds the lock across the callback (i.e. was fixed)
+    None if std::env::var("SELFTEST_ALLOW_FIXED_CRATE").is_ok() => return Ok("facade detection ok; crate scenario no longer re-enters its lock".into()),
+    None => return Err("no panic: re-entrant BehaviorSubject::next went through (crate fixed? set SELFTEST_ALLOW_FIXED_CRATE=1)".into()),
+  };
+  check!(msg.starts_with("VERIF_SELF_DEADLOCK"), "unexpected panic message: {}", msg);
+  check!(msg.contains("behavior_subject.rs") && msg.contains("read mode") && msg.contains("write mode"), "message lacks sites/modes: {}", msg);
   Ok(msg)
 }
 
@@ -346,12 +365,13 @@ fn t8_many_runs() -> TestResult {
 // ------------------------------------------------------------------------------------------- 9 (extras)
 fn t9_controlled_misc() -> TestResult {
   // a) the test-2 scenario in controlled mode => Status::SelfDeadlock, run returns promptly
-  let out = rt::run(Config::default(), behavior_subject_reentrancy);
+  let scenario: fn() = if std::env::var("SELFTEST_ALLOW_FIXED_CRATE").is_ok() { raw_reentrancy } else { behavior_subject_reentrancy };
+  let out = rt::run(Config::default(), scenario);
   let msg = match &out.status {
     Status::SelfDeadlock(m) => m.clone(),
     s => return Err(format!("expected SelfDeadlock, got {:?}", s)),
   };
-  check!(msg.starts_with("VERIF_SELF_DEADLOCK") && msg.contains("behavior_subject.rs"), "msg {}", msg);
+  check!(msg.starts_with("VERIF_SELF_DEADLOCK") && (msg.contains("behavior_subject.rs") || msg.contains("main.rs")), "msg {}", msg);
   check!(out.live_threads.len() == 1 && out.live_threads[0].id == 0, "live {:?}", out.live_threads);
   // b) a panicking thread is recorded, its guard is released during unwinding (poisoning as in std), run goes on
   let out = rt::run(Config { strategy: Strategy::RoundRobin, ..Config::default() }, || {
@@ -416,10 +436,37 @@ fn t9_controlled_misc() -> TestResult {
   let some_deadlock = (0..20).any(|seed| matches!(rt::run(Config { seed, ..Config::default() }, scenario).status, Status::Deadlock(_)));
   rt::set_writer_preference(false);
   check!(all_ok && some_deadlock, "writer preference: default all ok = {}, with preference some deadlock = {}", all_ok, some_deadlock);
-  // e) trace
+  // e) several subscribers on one Subject: HashMap iteration order is a function of the seed (replayable)
+  let fanout = |seed: u64| {
+    let log = new_log::<String>();
+    let l = log.clone();
+    let out = rt::run(Config { seed, ..Config::default() }, move || {
+      let sbj = subjects::Subject::<i32>::new();
+      for name in ["a", "b", "c", "d"] {
+        let l = l.clone();
+        sbj.observable().subscribe(move |x| l.lock().unwrap().push(format!("{}{}", name, x)), |_| {}, || {});
+      }
+      let s2 = sbj.clone();
+      let h = fthread::spawn(move || s2.next(1));
+      sbj.next(2);
+      h.join().unwrap();
+    });
+    (out.choices, snapshot(&log))
+  };
+  let mut orders = BTreeSet::new();
+  for seed in 0..20 {
+    let (a, b) = (fanout(seed), fanout(seed));
+    check!(a == b, "fan-out to 4 subscribers is not reproducible for seed {}: {:?} vs {:?}", seed, a.1, b.1);
+    let mut first: Vec<_> = a.1.iter().filter(|x| x.ends_with('1')).cloned().collect();
+    check!(first.len() == 4, "fan-out log {:?}", a.1);
+    first.iter_mut().for_each(|x| x.truncate(1));
+    orders.insert(first);
+  }
+  check!(orders.len() >= 2, "subscriber order does not vary with the seed");
+  // f) trace
   let (out, _) = run_emitters(Config { trace: true, ..Config::default() }, 2, 1);
   check!(out.trace.iter().any(|l| l.contains("req-read") && l.contains("subject.rs")) && out.trace.iter().any(|l| l.contains("acquired")), "trace lacks events: {:?}", out.trace);
-  Ok(format!("SelfDeadlock status, panic+poison, notify_one decision, lost notify, spurious wake-ups, writer preference, trace ({} lines)", out.trace.len()))
+  Ok(format!("SelfDeadlock status, panic+poison, notify_one decision, lost notify, spurious wake-ups, writer preference, reproducible HashMap order ({} orders / 20 seeds), trace ({} lines)", orders.len(), out.trace.len()))
 }
 
 fn main() {
